@@ -12,7 +12,9 @@ from .common import Check
 USE_TXT = {"none": None, "all": "use %s", "onlyx": "use %s, only: x", "onlyy": "use %s, only: y",
            "onlylx": "use %s, only: lx => x", "renlx": "use %s, lx => x"}
 TEMPLATES = ["{n} = {n} + 1", "{n}={n}+1", "call sink({n}, {n})", "if ({n} > {n}) {n} = {n}", "print *, '{n}', \"{n}\", {n} ! {n}",
-             "{n}={n}*{n}-{n}", "print *, 'stop! {n}', {n}, \"it's {n}!\", {n}"]
+             "{n}={n}*{n}-{n}", "print *, 'stop! {n}', {n}, \"it's {n}!\", {n}",
+             # an apostrophe inside each of two double-quoted literals (the text between them is code); a quote inside a comment
+             "print *, \"it's\", {n}, \"it's\"", "print *, \"don't\", {n} ! isn't {n}", "print *, 'say \"{n}', {n}, 'q\"'"]
 
 
 class Doc:
